@@ -85,6 +85,7 @@ try:
                 worst = max(worst, abs(a - b) / (abs(a) + abs(b) + 1e-300))
             rows.append([[complex(k_).real, complex(k_).imag], [complex(love[t][0]).real, complex(love[t][0]).imag]])
         out['love_vs_result_surface'] = worst
+        out['love'] = [[[complex(v).real, complex(v).imag] for v in love[t]] for t in range(nty)]
         out['love_rows'] = rows
 except BaseException as e:
     out['exception'] = type(e).__name__
